@@ -6,8 +6,8 @@ import os
 HERE = os.path.dirname(os.path.abspath(__file__))
 
 TRUST = ("Trusted: rustc nightly's type checking / MIR construction at -Zmir-opt-level=0, the mjfacts driver's "
-         "serialisation, std-library semantics of the few std functions a rule models, and the reviewed tables under "
-         "/verif/tables.  Features stacker / speedups / internal_safe_search are outside every analysed configuration.")
+         "serialisation, std-library semantics of the few std functions a rule models, and the reviewed tables kept in "
+         "the rule modules (/verif/mjsa/rules/*.py: REVIEWED*, MAP_API, GLOBAL_STATE ..., one line of reason per entry).  Features stacker / speedups / internal_safe_search are outside every analysed configuration.")
 
 # property -> (technique, level text, design_ref, extra level note)   or  None + reason for not applicable
 CLAIMED = {
